@@ -25,7 +25,7 @@
 From Coq Require Import List ZArith NArith Bool.
 From TskVerif Require Import Base.Common Gen.Generated C20.Model C20.Spec C20.HartiganProofs C20.TopProofs
   C20.BoundProofs C20.StackProofs C20.FixProofs C20.ArrayProofs C20.EndToEnd C20.CurrentProofs
-  C20.PyProofs C20.ErrProofs C20.TreeInv C20.Final C20.Refuted C20.Examples.
+  C20.PyProofs C20.ErrProofs C20.TreeInv C20.Final C20.RenameProofs C20.Refuted C20.Examples.
 Import ListNotations.
 
 (* (a) Hartigan's invariant for the sets the code computes — every tree (polytomies, unary
@@ -348,6 +348,14 @@ Theorem c_entry_checks : forall (fx : bool) (ta : tree_arrays) (g : list Z) (anc
      forall a, anc = Some a -> (a < 0 \/ a >= c20_hartigan_max_alleles)%Z ->
      c_map_mutations_gen fx ta g anc = Err ERR_BAD_ANCESTRAL_STATE).
 Proof. exact c_entry_checks_lemma. Qed.
+
+(* The result does not depend on how the nodes are numbered: renaming the node ids of the forest
+   by ANY function f (a permutation, "ancestors first", ...) renames the nodes of the returned
+   transitions by f and changes nothing else — same ancestral state, same number, order, parent
+   indices and derived states.  No relation between node ids and the tree order is used. *)
+Theorem mm_model_rename : forall (K : nat) (f : Z -> Z) (roots : list tree) (anc : option N),
+  mm_model K (map (rename f) roots) anc = option_map (ren_result f) (mm_model K roots anc).
+Proof. exact mm_model_rename_lemma. Qed.
 
 (* ---- historical record: the PINNED (pre-fix) variant [mm_rose] on the original tree ---- *)
 (* optimal only when no internal sample has a missing genotype ... *)
